@@ -81,6 +81,10 @@ RngHits(e) ==
            LET nx == PM!Next(PM!NormSeed(e.seed)) w0 == nx \div 128 IN
            If(e.inrange = 1, "DrawInRange") \cup If(e.w >= w0 - 3 /\ e.w <= w0 + 3, "DrawIsStateOverM")
       [] e.e = "CDraw" -> If(e.inrange = 1, "DrawInRange") \cup If(e.twostates = 1, "ComplexDrawTwoStates")
+      [] e.e = "InitVec" ->
+           \* the start vector of a default init() is the stream of seed 0: state_i = A^i * NormSeed(0), draw_i = state_i / M - 0.5
+           LET st == [i \in 1 .. Len(e.w) |-> PM!MulMod(PM!PowMod(PM!A, i), PM!NormSeed(0))] IN
+           If(Len(e.w) > 0 /\ \A i \in 1 .. Len(e.w) : e.w[i] >= st[i] \div 128 - 3 /\ e.w[i] <= st[i] \div 128 + 3, "DefaultInitIsSeed0Stream")
       [] e.e = "Purity" -> If(e.same_stream = 1, "SeedPure") \cup If(e.vec_is_len_draws = 1, "VecConsumesLenStates")
       [] OTHER -> {}
 
@@ -105,7 +109,7 @@ TrStep ==
     /\ LET e == Tr[l] IN
         /\ mon' = AddHits(mon, CASE e.e = "Sort" -> SortHits(e)
                                  [] e.e = "NevAdj" -> NevHits(e)
-                                 [] e.e \in {"Trans", "Walk", "Checkpoints", "Seeds", "Draw", "CDraw", "Purity"} -> RngHits(e)
+                                 [] e.e \in {"Trans", "Walk", "Checkpoints", "Seeds", "Draw", "CDraw", "Purity", "InitVec"} -> RngHits(e)
                                  [] e.e \in {"EndSort", "EndRng", "EndNevAdj", "Reset"} -> {}
                                  [] OTHER -> {Hit("UnknownRow")})
         /\ cov' = LET c0 == Bump(cov, "rows", 1) IN
